@@ -909,7 +909,11 @@ def _retention_post(ctx):
     dels = [e for e in ctx.st.effects if e.kind == "sql" and e.data["kind"] == "delete" and e.data["table"] == "processed_messages"]
     goals = [("one-sweep-statement", z3.BoolVal(len(dels) == 1))]
     if len(dels) == 1:
-        cutoff, _n = SQL.SqlEval(I, dels[0].data["params"]).param("cutoff")
+        prm = dels[0].data["params"]
+        items = getattr(I.st.dicts[prm.did], "items", None) if hasattr(prm, "did") else None
+        if not items or len(items) != 1:
+            return goals + [("the-sweep-takes-one-parameter", FALSE)]
+        cutoff, _n = SQL.SqlEval(I, prm).to_int(items[0][1])  # whatever the parameter is called
         nows = ctx.st.ghost.get("py_nows", [])
         goals.append(("the-clock-is-read-once", z3.BoolVal(len(nows) == 1)))
         if len(nows) == 1:
